@@ -3,7 +3,7 @@ from __future__ import annotations
 
 import ast
 from decimal import Decimal
-from typing import List
+from typing import Dict, List
 
 from ..absint import LevelV, LogUnitV, NumV, QuantV, Unsupported
 from ..algebra import describe
@@ -19,6 +19,76 @@ from .c09 import evaluate
 TITLE = "Levels and quantities interconvert by the logarithmic definition"
 
 
+LOSSY_CALLS = {"round", "int", "float", "abs", "math.floor", "math.ceil", "math.trunc", "floor", "ceil", "trunc", "format", "str", "repr", "hash"}
+
+
+def interning_keys(rep: Report, prog: Program) -> None:
+    """R18.7: Logarithm and LogarithmicUnit are interned first-wins under a key; the unit a reference
+    gets back has *that first reference*.  The key must therefore determine (base, prefix) /
+    (logarithm, reference) exactly: every identifying constructor argument takes part in it and
+    nothing on the way is many-to-one on numbers (rounding, truncation, formatting, //, %)."""
+    for cls in ("Logarithm", "LogarithmicUnit"):
+        fi = prog.func(f"{cls}.__new__")
+        params = [p for p in fi.params()[1:] if p not in ("name", "symbol")]
+        defs: Dict[str, ast.AST] = {}
+        for n in ast.walk(fi.node):
+            if isinstance(n, ast.Assign) and len(n.targets) == 1 and isinstance(n.targets[0], ast.Name):
+                defs.setdefault(n.targets[0].id, n.value)
+        keys = []
+        for n in ast.walk(fi.node):
+            if isinstance(n, ast.Subscript) and ast.unparse(n.value).endswith("._known"):
+                keys.append(n.slice)
+            if isinstance(n, ast.Compare) and len(n.ops) == 1 and isinstance(n.ops[0], (ast.In, ast.NotIn)) and ast.unparse(n.comparators[0]).endswith("._known"):
+                keys.append(n.left)
+            if isinstance(n, ast.Call) and isinstance(n.func, ast.Attribute) and n.func.attr in ("setdefault", "get") and ast.unparse(n.func.value).endswith("._known") and n.args:
+                keys.append(n.args[0])
+        if not keys:
+            raise AnalysisError(f"{cls}.__new__: no use of _known found (R18.7 anchor moved)")
+        texts = {ast.unparse(k) for k in keys}
+        rep.check("R18.7", f"{cls}.__new__:one-key", len(texts) == 1, f"{cls}.__new__ tests and stores under different keys {sorted(texts)}", fi.where())
+
+        def expand(e: ast.AST, depth: int = 0) -> List[ast.AST]:
+            """The expressions that make up the key: locals and class helpers followed."""
+            out = [e]
+            for x in ast.walk(e):
+                if isinstance(x, ast.Name) and x.id in defs and depth < 4:
+                    out += expand(defs[x.id], depth + 1)
+                if isinstance(x, ast.Call) and isinstance(x.func, ast.Attribute) and isinstance(x.func.value, ast.Name) and x.func.value.id in ("cls", "self", cls) and depth < 3:
+                    for q in prog.method(cls, x.func.attr):
+                        h = prog.functions.get(q)
+                        if h is not None:
+                            for r in ast.walk(h.node):
+                                if isinstance(r, ast.Return) and r.value is not None:
+                                    out += expand_in(h.node, r.value, depth + 1)
+            return out
+
+        def expand_in(fn: ast.AST, e: ast.AST, depth: int) -> List[ast.AST]:
+            ldefs = {n.targets[0].id: n.value for n in ast.walk(fn) if isinstance(n, ast.Assign) and len(n.targets) == 1 and isinstance(n.targets[0], ast.Name)}
+            out = [e]
+            for x in ast.walk(e):
+                if isinstance(x, ast.Name) and x.id in ldefs and depth < 5:
+                    out += expand_in(fn, ldefs[x.id], depth + 1)
+            return out
+        parts = expand(keys[0])
+        used = {x.id for pt in parts for x in ast.walk(pt) if isinstance(x, ast.Name)}
+        missing = [p for p in params if p not in used]
+        rep.check("R18.7", f"{cls}.__new__:identifying-arguments", not missing,
+                  f"the interning key of {cls} does not involve {missing}: two {cls}s that differ only there are the same object", fi.where())
+        lossy = []
+        for pt in parts:
+            for x in ast.walk(pt):
+                if isinstance(x, ast.Call) and ast.unparse(x.func) in LOSSY_CALLS:
+                    lossy.append(x)
+                elif isinstance(x, ast.BinOp) and isinstance(x.op, (ast.FloorDiv, ast.Mod)):
+                    lossy.append(x)
+                elif isinstance(x, ast.JoinedStr):
+                    lossy.append(x)
+        rep.check("R18.7", f"{cls}.__new__:exact-key", not lossy,
+                  f"the interning key of {cls} goes through `{ast.unparse(lossy[0])[:50] if lossy else ''}`, which maps different numbers "
+                  f"to one key: a later {cls} silently gets the earlier object (for a LogarithmicUnit, the earlier reference - every level "
+                  "in it is off by the ratio of the two references)", fi.where(lossy[0] if lossy else None))
+
+
 def run(rep: Report) -> None:
     prog = Program()
     resolver = Resolver(prog)
@@ -29,6 +99,7 @@ def run(rep: Report) -> None:
     rep.rule("R18.3", "LogarithmicUnit stores its reference unprefixed", floor=1)
     rep.rule("R18.4", "power_ratio is 2 exactly for root-power reference dimensions and 1 otherwise", floor=2)
     rep.rule("R18.5", "declared logarithm bases are > 1 (strictly increasing level)", floor=3)
+    rep.rule("R18.7", "Logarithm / LogarithmicUnit are interned under a key that determines their defining arguments exactly", floor=6)
     rep.rule("R18.6", "Level.__eq__ compares through quantify() on every arm", floor=2)
 
     # ---- level()
@@ -160,6 +231,7 @@ def run(rep: Report) -> None:
                   "Quantity.__eq__ so that x == y exactly when y == x", leq.where(s))
     if len(arms) < 2:
         rep.fail("R18.6", "Level.__eq__:arms", "expected a Level arm and a Quantity arm returning a comparison", leq.where())
+    interning_keys(rep, prog)
     rep.assume("in_unit is value-preserving (C04); ln/exp are inverse; B > 1")
     rep.not_decided.append("floating-point rounding of the (algebraically verified) formulas; Level.__add__/__sub__ (not part of the property)")
     rep.trust("mypy 2.3.1 expression types; E4 normal forms with ln/exp heads")
